@@ -85,4 +85,37 @@ CLAIMS.update({
     },
 })
 
+CLAIMS.update({
+    "C01": {
+        "technique": "static analysis of the aligner's shape: flag/placement table agreement (A5), abstract execution of the two candidate-recording sites with entailment of the acceptance test (A1/A3), linear algebra of the N-discount window (A4), decision table of the DP cell's three-way minimum, Hamming comparer tables, result-tuple/constructor agreement (A8), IUPAC table against the standard",
+        "text": "Decides necessary conditions of 'every reported match is genuine and in tolerance': every adapter class is searched with the end-skip flags of its documented placement rule; a candidate is recorded only on paths where length >= min_overlap and cost <= N-discounted length * rate were established; the N window equals the aligned adapter interval; n_counts are prefix sums; the DP cell takes a minimum with a consistent predecessor; the Hamming comparers' acceptance and coordinates; the six result components reach the match under their own names (incl. the rightmost mirror); the IUPAC/ACGT encodings and their selection. NOT decided: that the DP yields the true edit distance and an optimal score for every read, and that origin-derived coordinates lie inside the read.",
+        "design_ref": "DESIGN.md section 5, C01",
+    },
+    "C02": {
+        "technique": "static analysis: abstract execution of the band set-up of Aligner.locate over all end-skip flag combinations with entailment of the band inequalities (A3/A4), decision tables of the shrink loop and the early exit, structure of the candidate scans",
+        "text": "Decides the band/limit conditions without which occurrences are lost for particular read lengths: the column range contains min(n, m+k) / max(0, n-m-k) and is only restricted when the corresponding read end is fixed, the Ukkonen limit starts at >= min(m, k+1) and only shrinks over cells with cost > k, the only early exit is an exact match starting inside the read after the best match was updated, last-row and last-column candidates are considered exactly under the documented flags, and the rightmost 5' adapter searches reversed strings. NOT decided: completeness of the search, leftmost/rightmost optimality, 'exact copies never survive'.",
+        "design_ref": "DESIGN.md section 5, C02",
+    },
+    "C07": {
+        "technique": "static analysis: coverage table aligner flags -> requested k-mer search sets per adapter class (A5/A2), argument/role agreement between prefilter and aligner (A7/A8), abstract execution of one error tier of the search-set builder, symbolic bounds of the raw-pointer scan with a small-model feasibility check (A10)",
+        "text": "Decides necessary conditions of 'the prefilter never changes the result': every placement the aligner flags admit is covered by a requested search set (and reads shorter than an anywhere adapter bypass the filter), filter and aligner get the same wildcard flags, error rate, overlap and string, each error tier emits max_errors+1 chunks and advances the minimum length, end windows are widened by the error allowance when indels are on, the scan never leaves the read, and k-mers fit the 64-bit word with a fallback to the always-true finder. NOT decided: soundness of the pigeonhole argument as a whole for every read.",
+        "design_ref": "DESIGN.md section 5, C07",
+    },
+    "C08": {
+        "technique": "static analysis: decision tables (A3) of the index insertion step (ambiguity bookkeeping), of the multi-length look-up loop (length bound, best-of, continuation on a miss, N path) and of the eligibility test; constructor-argument agreement for the match factories (A8); KeyError paths are explored",
+        "text": "Decides that index matches have in-read coordinates (only lengths that fit are looked up; [0,length) / [len-length,len) factories), that a string is ambiguous afterwards iff its best match count is attained twice (strictly better clears), the best-of-lengths selection with continuation on a miss, each adapter's own error allowance for its neighbourhood, the eligibility table, and that affixes containing N are re-aligned. NOT decided: completeness of the neighbourhood enumerators; the 'exactly one adapter within tolerance' clause.",
+        "design_ref": "DESIGN.md section 5, C08",
+    },
+    "C13": {
+        "technique": "static analysis: decision tables (A3) of the three running-sum scans in qualtrim.pyx (stop rule, strict-maximum rule, recorded position) via abstract execution with entailment, linear algebra of counter vs returned slice (A4), parameter-role agreement from the option to the C routine (A8/A2)",
+        "text": "Decides the tie and stop rules and recorded positions of the 5', 3' and NextSeq scans (sum += cutoff - (q - base); stop iff sum < 0; optimum iff sum > best), the scan directions and cutoffs per end, the (0,0) rule, that the base only shifts the scale, that reported = removed for both trimmers, and that cutoffs and --quality-base reach the right parameters. NOT decided: that the scan computes the stated arg-min for every quality string.",
+        "design_ref": "DESIGN.md section 5, C13",
+    },
+    "C14": {
+        "technique": "static analysis: a C-subset front end for expected_errors.h (table values against 10^(-i/10); abstract execution of the unrolled and the tail loop), decision tables (A3) of both poly-A scan branches with the mirror map, regex ASTs of the N-end patterns, linear algebra of the poly-A tallies",
+        "text": "Decides the 94 table values, that every quality value is range-checked on its own before indexing and each offset is read exactly once per stride with a correct tail loop and a complete final sum, the poly-A/poly-T scan rules (+1/-2, errors*5 <= tail length, strict optimum, length-3 rule) and that the two branches mirror each other, the ^N+/N+$ patterns and the kept slice, the case-insensitive N count, and reported = removed for poly-A. NOT decided: the arg-max claim for every tail.",
+        "design_ref": "DESIGN.md section 5, C14",
+    },
+})
+
 PENDING_REASON = "no static rule for this property is registered in this revision of /verif (see DESIGN.md section 7 for what is out of reach)"
